@@ -74,6 +74,11 @@ impl Part {
 }
 
 pub fn run_part(p: &Part, names: &[&str], nontrivial_mask: u64, run_case: &(dyn Fn(&GCase) -> Outcome + Sync), rep: &mut Report) {
+    // smoke plan (the quick tier's second run, on the build with overflow checks and debug assertions): only
+    // the structure catalogue of every wide k-mer type; anti-vacuity floors are not applied to it
+    if vcommon::report::smoke() && !p.name.starts_with("catalogue") {
+        return;
+    }
     let cfg = SweepCfg { name: &p.name, flag_names: names, cap: p.cap, nontrivial_mask };
     run_sweep(&cfg, p.count(), |i| run_case(&p.case(i)), |i| serde_json::to_value(p.case(i)).unwrap(), rep);
 }
